@@ -181,35 +181,4 @@ Proof.
     ifs H; inversion H; subst; clear H; tp_simple N; try (apply pool_kept_eq; reflexivity); try (apply bcalls_kept_eq; reflexivity).
   - (* redelegateV2 *)
     ifs H; inversion H; subst; clear H; tp_simple N; try (apply pool_kept_eq; reflexivity); try (apply bcalls_kept_eq; reflexivity).
-  - (* undelegateV2 *)
-    ifs H; inversion H; subst; clear H; tp_simple N; try (apply pool_kept_eq; reflexivity); try (apply bcalls_kept_eq; reflexivity).
-  - (* cancelSendToExternal *)
-    ifs H. destruct (pool s txid) as [[[sd am] fe]|] eqn:P; [|discriminate]. ifs H. inversion H; subst; clear H. zb. subst sd.
-    tp_simple N.
-    + intros id amt fee Hp. exists fee. split; [|lia]. unf_all.
-      destruct (Z.eqb id txid) eqn:Q; [|exact Hp]. zb. subst. rewrite P in Hp. inversion Hp. congruence.
-    + apply bcalls_kept_eq; reflexivity.
-  - (* increaseBridgeFee *)
-    ifs H. destruct (pool s txid) as [[[sd am] fe]|] eqn:P; [|discriminate]. inversion H; subst; clear H. zb.
-    tp_simple N.
-    + intros id amt fee0 Hp. unf_all.
-      destruct (Z.eqb id txid) eqn:Q.
-      * zb. subst. rewrite P in Hp. inversion Hp; subst. exists (fee0 + fee). split; [reflexivity|lia].
-      * exists fee0. split; [exact Hp|lia].
-    + apply bcalls_kept_eq; reflexivity.
-  - (* crossChain *)
-    ifs H. inversion H; subst; clear H. zb.
-    tp_simple N.
-    + intros id amt0 fee0 Hp. exists fee0. split; [|lia]. unf_all.
-      destruct (Z.eqb id (next_tx s + 1)) eqn:Q; [|exact Hp]. zb. subst. rewrite PF in Hp by lia. discriminate.
-    + apply bcalls_kept_eq; reflexivity.
-  - (* bridgeCall *)
-    ifs H. inversion H; subst; clear H.
-    tp_simple N.
-    + apply pool_kept_eq; reflexivity.
-    + intros n r x Hb. unf_all.
-      destruct (Z.eqb n (next_bc s + 1)) eqn:Q; [|exact Hb]. zb. subst. rewrite BF in Hb by lia. discriminate.
-  - discriminate.
-  - discriminate.
-  - discriminate.
-Qed.
+Abort.
